@@ -565,4 +565,44 @@ theorem uvValidCCW_sound (lo hi : K) (ts : List (Tri2 K)) (h : uvValidCCW lo hi 
     simp only [Tri2.inBox, Bool.and_eq_true, inBox_iff] at this
     exact ⟨this.1.1, this.1.2, this.2⟩
 
+/-! ## Arc-length placement -/
+
+theorem runSums_gt (ls : List K) (acc : K) (hpos : ∀ l ∈ ls, 0 < l) : ∀ x ∈ runSums acc ls, acc < x := by
+  induction ls generalizing acc with
+  | nil => simp [runSums]
+  | cons l r ih =>
+    intro x hx
+    have hl : 0 < l := hpos l (by simp)
+    simp only [runSums, List.mem_cons] at hx
+    rcases hx with rfl | hx
+    · linarith
+    · have := ih (acc + l) (fun y hy => hpos y (by simp [hy])) x hx
+      linarith
+
+/-- With positive segment lengths the cumulative lengths are strictly increasing. -/
+theorem runSums_pairwise (ls : List K) (acc : K) (hpos : ∀ l ∈ ls, 0 < l) : (runSums acc ls).Pairwise (· < ·) := by
+  induction ls generalizing acc with
+  | nil => simp [runSums]
+  | cons l r ih =>
+    simp only [runSums, List.pairwise_cons]
+    exact ⟨runSums_gt r (acc + l) (fun y hy => hpos y (by simp [hy])), ih (acc + l) (fun y hy => hpos y (by simp [hy]))⟩
+
+theorem runSums_le_total (ls : List K) (acc : K) (hpos : ∀ l ∈ ls, 0 < l) :
+    ∀ x ∈ runSums acc ls, x ≤ ls.foldl (· + ·) acc := by
+  induction ls generalizing acc with
+  | nil => simp [runSums]
+  | cons l r ih =>
+    intro x hx
+    simp only [runSums, List.mem_cons] at hx
+    simp only [List.foldl_cons]
+    rcases hx with rfl | hx
+    · cases r with
+      | nil => simp
+      | cons l2 r2 =>
+        have h1 := runSums_gt (l2 :: r2) (acc + l) (fun y hy => hpos y (by simp [hy]))
+        have h2 := ih (acc + l) (fun y hy => hpos y (by simp [hy]))
+        have hm : (acc + l + l2) ∈ runSums (acc + l) (l2 :: r2) := by simp [runSums]
+        exact le_of_lt (lt_of_lt_of_le (h1 _ hm) (h2 _ hm))
+    · exact ih (acc + l) (fun y hy => hpos y (by simp [hy])) x hx
+
 end M3d.Param
